@@ -550,7 +550,7 @@ impl C17 {
             t
         });
         let corridor = match kind {
-            26 | 27 | 29 | 30 => Some(gen_dispatch_case(g, 2, &CorridorOpts { max_stages: 5, max_seg: 8000.0, p_branch: 0.3, ..Default::default() })),
+            26 | 27 | 29 | 30 => Some(gen_dispatch_case(g, 2, &CorridorOpts { max_stages: 5, max_seg: 8000.0, p_branch: 0.3, p_bypass: 0.2, ..Default::default() })),
             _ => None,
         };
         let special = g.int(0, 3) as u8;
